@@ -4,3 +4,5 @@ pub mod c03;
 pub mod c04;
 pub mod c16;
 pub mod c20;
+pub mod c13;
+pub mod c14;
